@@ -355,6 +355,10 @@ type c05Case struct {
 	SmallWin  bool `json:"small_receive_window"` // harness peers use 128 KiB SO_RCVBUF and read slowly: back-pressure, partial writes
 	Eager     bool `json:"eager_close"`
 	LongGrace bool `json:"long_grace"`
+	// OldConn: the connection idles for longer than the relay's half-close grace
+	// period (10 s) before the first half-close, so a grace deadline that is not
+	// anchored at the moment of the half-close shows up.
+	OldConn bool `json:"old_connection_before_half_close"`
 }
 
 func c05Pick[T any](r *rand.Rand, xs ...T) T { return xs[r.IntN(len(xs))] }
@@ -415,6 +419,9 @@ func c05GenCase(r *rand.Rand, id int, budget *int64) *c05Case {
 	cs.SmallWin = (cs.C2S >= 65535 || cs.S2C >= 65535) && r.IntN(2) == 0
 	cs.Eager = cs.Close != "never" && r.IntN(5) < 2
 	cs.LongGrace = (cs.Close == "client-first" || cs.Close == "server-first") && r.IntN(3) == 0
+	if (cs.Close == "client-first" || cs.Close == "server-first") && r.IntN(10) == 0 {
+		cs.OldConn, cs.Eager = true, false
+	}
 	return cs
 }
 
@@ -1269,6 +1276,15 @@ func (x *c05Run) run() {
 		return
 	}
 	m.Count("bulk_delivered", 1)
+	if cs.OldConn {
+		x.ev("harness: idling 11 s (connection older than the half-close grace period before the first half-close)")
+		time.Sleep(11 * time.Second)
+		if x.judgeCut() {
+			x.teardown(srvConn)
+			return
+		}
+		m.Count("old_connection_half_close", 1)
+	}
 
 	// phase 2: close order
 	halfClose := func(closer, other *c05Peer, otherTailFrom, otherTailTo int64, seg *rand.Rand, dir, dstKind string) {
@@ -1515,7 +1531,9 @@ func TestVerifC05(t *testing.T) {
 		order[i] = i
 	}
 	sort.SliceStable(order, func(a, b int) bool {
-		return (cases[order[a]].Stack == "dns53") && (cases[order[b]].Stack != "dns53")
+		la := cases[order[a]].Stack == "dns53" || cases[order[a]].OldConn
+		lb := cases[order[b]].Stack == "dns53" || cases[order[b]].OldConn
+		return la && !lb
 	})
 	sem := make(chan struct{}, par)
 	var wg sync.WaitGroup
@@ -1565,7 +1583,7 @@ func TestVerifC05(t *testing.T) {
 	m.Count("gather_hook_calls", gatherCalls.Load())
 	m.Count("gather_hook_with_pending_body", gatherWithBody.Load())
 	m.Require("path_gather", "path_splice", "path_loop", "gather_hook_calls",
-		"eof_propagated_l2r", "eof_propagated_r2l", "grace_flow_delivered", "alive_after_window", "late_unit_delivered", "eager_close", "long_grace_4s", "small_window_backpressure",
+		"eof_propagated_l2r", "eof_propagated_r2l", "grace_flow_delivered", "alive_after_window", "late_unit_delivered", "eager_close", "long_grace_4s", "small_window_backpressure", "old_connection_half_close",
 		"outcome_plain", "outcome_bufio", "outcome_prefixed", "outcome_sniffer-ok", "outcome_raw-noready")
 	_ = errors.Is
 	m.Done(t)
